@@ -140,11 +140,12 @@ def run_variants(ctx, fam, spec, inputs, kw):
     outs.append(("async-yield", core.execute(async_spec, inputs, "async", sched=s, processors=procs, **kw)))
     # node order
     if fam.get("unique_outputs", True):
-        sh = gen.shuffled(ctx.rng, sync_spec)
-        outs.append(("sync-shuffled", core.execute(sh, inputs, "sync", **kw)))
-        sh2 = gen.shuffled(ctx.rng, async_spec)
-        s = rt.Sched(default="rand", rng=ctx.rng)
-        outs.append(("async-shuffled", core.execute(sh2, inputs, "async", sched=s, **kw)))
+        for j in range(4 if fam["family"] == "waitdag" else 1):
+            sh = gen.shuffled(ctx.rng, sync_spec)
+            outs.append((f"sync-shuffled{j}", core.execute(sh, inputs, "sync", **kw)))
+            sh2 = gen.shuffled(ctx.rng, async_spec)
+            s = rt.Sched(default="rand", rng=ctx.rng)
+            outs.append((f"async-shuffled{j}", core.execute(sh2, inputs, "async", sched=s, **kw)))
     return outs
 
 
@@ -227,7 +228,7 @@ def run(ctx):
         ctx.case("replay2")
         return
     for i in range(n):
-        fam = families.pick(ctx.rng, ["dag", "dag-fallback", "gated", "loop", "waitdag"])
+        fam = families.pick(ctx.rng, ["dag", "dag-fallback", "gated", "loop", "waitdag", "waitdag"])
         spec, inputs, kw = fam["spec"], fam["inputs"], fam.get("kw", {})
         _one(ctx, fam, spec, inputs, kw, None)
         # one failing node per program (error collected)
